@@ -2568,3 +2568,432 @@ Theorem frag2_source_fixpoint : forall t c w out, parse_frag2 t = Some c -> form
 Proof.
   intros t c w out Hp Hf. apply (frag2_format_fixpoint c w out); [apply (parse_frag2_wf t); exact Hp|exact Hf].
 Qed.
+
+(* ########################################################################################## *)
+(* X. non-vacuity *)
+(* ########################################################################################## *)
+
+(* Non-vacuity of the FormatFrag2 round trip
+     forall s w, g_wf_seq s = true ->
+       exists out c', format_frag2 s w = Some out /\ parse_frag2 out = Some c' /\ g_normalize c' = g_normalize s
+   on one example that exercises: the splice of a redundant block, g_group of a compound consequence,
+   g_wrap_breaking_body inside a multi-branch block, and tall steps (blank lines). Everything by vm_compute.
+   Also a batch of adversarial inputs at widths 0 7 20 41 51 80 100 300: no counterexample was found
+   (X_adv_all_ok), so there is no X_refuted in this file. *)
+
+(* ------------------------------------------------------------------------------------------ *)
+(* the example                                                                                 *)
+Definition X_la : list Z := repeat 97 30.   (* aaa...a, 30 characters *)
+Definition X_lb : list Z := repeat 98 30.   (* bbb...b, 30 characters *)
+
+(* source tree, four top-level steps:
+     1.  first { gamma helper } index            the block is REDUNDANT (one branch, no =>, one non-empty chain):
+                                                 g_normalize splices it: first gamma helper index
+     2.  { x => p, q 7 | aaa...a bbb...b }       two branches; the first has a guard whose consequence has two steps,
+                                                 so g_group wraps it: x => { p, q 7 }; the second branch is a single
+                                                 chain of two identifiers, 61 columns > CHAIN_SOFT_WIDTH = 50, so it
+                                                 force-breaks with ''~>'' at every width and g_wrap_breaking_body puts
+                                                 it in braces of its own
+     3.  aaa...a bbb...b                         the same pipeline as a top-level step: g_is_tall_step holds, blank
+                                                 lines before and after it
+     4.  P[x: 1, ''hi {'', { u | v }]            a tuple with a label, a string with an escaped brace, and a short
+                                                 two-branch block: flat at width 100, broken at width 20 *)
+Definition X_ex_seq : gseq :=
+  [ [GIdent [102; 105; 114; 115; 116];
+     GBlock [GBranch [[GIdent [103; 97; 109; 109; 97]; GIdent [104; 101; 108; 112; 101; 114]]] None];
+     GIdent [105; 110; 100; 101; 120]];
+    [GBlock [GBranch [[GIdent [120]]] (Some [[GIdent [112]]; [GIdent [113]; GInt 7]]);
+             GBranch [[GIdent X_la; GIdent X_lb]] None]];
+    [GIdent X_la; GIdent X_lb];
+    [GTuple (Some [80]) [GField (Some [120]) [GInt 1];
+                         GField None [GStr [104; 105; 32; 123]];
+                         GField None [GBlock [GBranch [[GIdent [117]]] None; GBranch [[GIdent [118]]] None]]]] ].
+
+Example X_ex_wf : g_wf_seq X_ex_seq = true.
+Proof. vm_compute. reflexivity. Qed.
+
+(* what the printer is run on *)
+Definition X_ex_norm : gseq :=
+  [ [GIdent [102; 105; 114; 115; 116]; GIdent [103; 97; 109; 109; 97];
+     GIdent [104; 101; 108; 112; 101; 114]; GIdent [105; 110; 100; 101; 120]];
+    [GBlock [GBranch [[GIdent [120]]] (Some [[GBlock [GBranch [[GIdent [112]]; [GIdent [113]; GInt 7]] None]]]);
+             GBranch [[GIdent X_la; GIdent X_lb]] None]];
+    [GIdent X_la; GIdent X_lb];
+    [GTuple (Some [80]) [GField (Some [120]) [GInt 1];
+                         GField None [GStr [104; 105; 32; 123]];
+                         GField None [GBlock [GBranch [[GIdent [117]]] None; GBranch [[GIdent [118]]] None]]]] ].
+Example X_ex_normalize : g_normalize X_ex_seq = X_ex_norm.
+Proof. vm_compute. reflexivity. Qed.
+Example X_ex_normalize_idem : g_normalize X_ex_norm = X_ex_norm.
+Proof. vm_compute. reflexivity. Qed.
+
+(* ------------------------------------------------------------------------------------------ *)
+(* width 100:
+first gamma helper index
+{
+  | x => { p, q 7 }
+  | {
+    aaaaaaaaaaaaaaaaaaaaaaaaaaaaaa
+    ~> bbbbbbbbbbbbbbbbbbbbbbbbbbbbbb
+  }
+}
+
+aaaaaaaaaaaaaaaaaaaaaaaaaaaaaa
+~> bbbbbbbbbbbbbbbbbbbbbbbbbbbbbb
+
+P[x: 1, ''hi \{'', { u | v }]
+   (the '' stand for the string quotes, code point 34)
+   - line 1: the redundant block is gone
+   - line 3: the grouped consequence
+   - lines 4-7: the wrapped breaking body of the second branch
+   - the blank lines: step 3 is tall (hard line twice before it, and twice after it since prev_tall)
+   - the two-branch block of step 2 is broken because it contains hard lines; the one in the tuple is flat *)
+Definition X_out100 : list Z :=
+  [102; 105; 114; 115; 116; 32; 103; 97; 109; 109; 97; 32; 104; 101; 108; 112; 101; 114; 32; 105; 110; 100; 101; 120; 10;
+     123; 10;
+     32; 32; 124; 32; 120; 32; 61; 62; 32; 123; 32; 112; 44; 32; 113; 32; 55; 32; 125; 10;
+     32; 32; 124; 32; 123; 10;
+     32; 32; 32; 32]
+  ++ X_la
+  ++ [10;
+     32; 32; 32; 32; 126; 62; 32]
+  ++ X_lb
+  ++ [10;
+     32; 32; 125; 10;
+     125; 10;
+     10]
+  ++ X_la
+  ++ [10;
+     126; 62; 32]
+  ++ X_lb
+  ++ [10;
+     10;
+     80; 91; 120; 58; 32; 49; 44; 32; 34; 104; 105; 32; 92; 123; 34; 44; 32; 123; 32; 117; 32; 124; 32; 118; 32; 125; 93; 10].
+Example X_fmt100 : format_frag2 X_ex_seq 100 = Some X_out100.
+Proof. vm_compute. reflexivity. Qed.
+
+(* width 20:
+first
+~> gamma
+~> helper
+~> index
+{
+  | x => { p, q 7 }
+  | {
+    aaaaaaaaaaaaaaaaaaaaaaaaaaaaaa
+    ~> bbbbbbbbbbbbbbbbbbbbbbbbbbbbbb
+  }
+}
+
+aaaaaaaaaaaaaaaaaaaaaaaaaaaaaa
+~> bbbbbbbbbbbbbbbbbbbbbbbbbbbbbb
+
+P[
+  x: 1,
+  ''hi \{'',
+  { u | v },
+]
+   - step 1 (24 columns) now breaks because of the width only; it does not force a break, so it is NOT a tall step
+     and no blank line follows it (X_tall_not_by_width)
+   - the tuple is broken with a trailing comma *)
+Definition X_out20 : list Z :=
+  [102; 105; 114; 115; 116; 10;
+     126; 62; 32; 103; 97; 109; 109; 97; 10;
+     126; 62; 32; 104; 101; 108; 112; 101; 114; 10;
+     126; 62; 32; 105; 110; 100; 101; 120; 10;
+     123; 10;
+     32; 32; 124; 32; 120; 32; 61; 62; 32; 123; 32; 112; 44; 32; 113; 32; 55; 32; 125; 10;
+     32; 32; 124; 32; 123; 10;
+     32; 32; 32; 32]
+  ++ X_la
+  ++ [10;
+     32; 32; 32; 32; 126; 62; 32]
+  ++ X_lb
+  ++ [10;
+     32; 32; 125; 10;
+     125; 10;
+     10]
+  ++ X_la
+  ++ [10;
+     126; 62; 32]
+  ++ X_lb
+  ++ [10;
+     10;
+     80; 91; 10;
+     32; 32; 120; 58; 32; 49; 44; 10;
+     32; 32; 34; 104; 105; 32; 92; 123; 34; 44; 10;
+     32; 32; 123; 32; 117; 32; 124; 32; 118; 32; 125; 44; 10;
+     93; 10].
+Example X_fmt20 : format_frag2 X_ex_seq 20 = Some X_out20.
+Proof. vm_compute. reflexivity. Qed.
+
+Example X_outs_differ : X_out100 <> X_out20.
+Proof. intro H. apply (f_equal (fun l => nth 5 l 0)) in H. vm_compute in H. discriminate H. Qed.
+
+(* ------------------------------------------------------------------------------------------ *)
+(* what the parser returns: the splice is not undone (4 terms in the first chain), the grouping block and the
+   wrapping block are read as blocks. The wrapping block is redundant, so g_normalize removes it again. *)
+Definition X_parsed100 : gseq :=
+  [ [GIdent [102; 105; 114; 115; 116]; GIdent [103; 97; 109; 109; 97];
+     GIdent [104; 101; 108; 112; 101; 114]; GIdent [105; 110; 100; 101; 120]];
+    [GBlock [GBranch [[GIdent [120]]] (Some [[GBlock [GBranch [[GIdent [112]]; [GIdent [113]; GInt 7]] None]]]);
+             GBranch [[GBlock [GBranch [[GIdent X_la; GIdent X_lb]] None]]] None]];
+    [GIdent X_la; GIdent X_lb];
+    [GTuple (Some [80]) [GField (Some [120]) [GInt 1];
+                         GField None [GStr [104; 105; 32; 123]];
+                         GField None [GBlock [GBranch [[GIdent [117]]] None; GBranch [[GIdent [118]]] None]]]] ].
+Definition X_parsed20 : gseq :=
+  [ [GIdent [102; 105; 114; 115; 116]; GIdent [103; 97; 109; 109; 97];
+     GIdent [104; 101; 108; 112; 101; 114]; GIdent [105; 110; 100; 101; 120]];
+    [GBlock [GBranch [[GIdent [120]]] (Some [[GBlock [GBranch [[GIdent [112]]; [GIdent [113]; GInt 7]] None]]]);
+             GBranch [[GBlock [GBranch [[GIdent X_la; GIdent X_lb]] None]]] None]];
+    [GIdent X_la; GIdent X_lb];
+    [GTuple (Some [80]) [GField (Some [120]) [GInt 1];
+                         GField None [GStr [104; 105; 32; 123]];
+                         GField None [GBlock [GBranch [[GIdent [117]]] None; GBranch [[GIdent [118]]] None]]]] ].
+
+(* probes used for the disequalities *)
+Definition X_first_len (s : gseq) : nat := length (hd [] s).
+Definition X_wrapped_probe (s : gseq) : bool :=
+  match nth 1 s [] with
+  | [GBlock [_; GBranch [[GBlock [GBranch [[_; _]] None]]] None]] => true
+  | _ => false
+  end.
+
+Example X_rt100 :
+  parse_frag2 X_out100 = Some X_parsed100 /\
+  g_normalize X_parsed100 = g_normalize X_ex_seq /\
+  X_parsed100 <> X_ex_seq /\
+  format_frag2 X_parsed100 100 = Some X_out100.
+Proof.
+  split; [vm_compute; reflexivity|]. split; [vm_compute; reflexivity|]. split.
+  - intro H. apply (f_equal X_first_len) in H. vm_compute in H. discriminate H.
+  - vm_compute. reflexivity.
+Qed.
+
+Example X_rt20 :
+  parse_frag2 X_out20 = Some X_parsed20 /\
+  g_normalize X_parsed20 = g_normalize X_ex_seq /\
+  X_parsed20 <> X_ex_seq /\
+  format_frag2 X_parsed20 20 = Some X_out20.
+Proof.
+  split; [vm_compute; reflexivity|]. split; [vm_compute; reflexivity|]. split.
+  - intro H. apply (f_equal X_first_len) in H. vm_compute in H. discriminate H.
+  - vm_compute. reflexivity.
+Qed.
+
+(* both layouts are read back as the same tree *)
+Example X_parsed_same : X_parsed20 = X_parsed100.
+Proof. reflexivity. Qed.
+
+(* the round-trip statement itself on the example, at both widths *)
+Example X_roundtrip_instance : forall w, w = 100%nat \/ w = 20%nat ->
+  exists out c', format_frag2 X_ex_seq w = Some out /\ parse_frag2 out = Some c' /\ g_normalize c' = g_normalize X_ex_seq.
+Proof.
+  intros w [-> | ->].
+  - exists X_out100, X_parsed100. split; [exact X_fmt100|]. split; [apply X_rt100|apply X_rt100].
+  - exists X_out20, X_parsed20. split; [exact X_fmt20|]. split; [apply X_rt20|apply X_rt20].
+Qed.
+
+(* ------------------------------------------------------------------------------------------ *)
+(* the features fire                                                                           *)
+Fixpoint X_has_blank (s : list Z) : bool :=
+  match s with
+  | a :: r => match r with
+              | b :: _ => ((a =? 10) && (b =? 10)) || X_has_blank r
+              | [] => false
+              end
+  | [] => false
+  end.
+Fixpoint X_prefix (p s : list Z) : bool :=
+  match p, s with
+  | [], _ => true
+  | a :: p', b :: s' => (a =? b) && X_prefix p' s'
+  | _ :: _, [] => false
+  end.
+Fixpoint X_has_sub (p s : list Z) : bool :=
+  X_prefix p s || match s with [] => false | _ :: r => X_has_sub p r end.
+Fixpoint X_count_blank (s : list Z) : nat :=
+  match s with
+  | a :: r => match r with
+              | b :: _ => if (a =? 10) && (b =? 10) then S (X_count_blank r) else X_count_blank r
+              | [] => 0%nat
+              end
+  | [] => 0%nat
+  end.
+
+(* the text of the wrapped second branch:
+  | {
+    aaa...a
+    ~> bbb...b
+  }                                   *)
+Definition X_wrapped_text : list Z :=
+  [10; 32; 32; 124; 32; 123; 10; 32; 32; 32; 32] ++ X_la ++ [10; 32; 32; 32; 32; 126; 62; 32] ++ X_lb ++ [10; 32; 32; 125; 10].
+(* the text of the grouped consequence: x => { p, q 7 } *)
+Definition X_grouped_text : list Z := [120; 32; 61; 62; 32; 123; 32; 112; 44; 32; 113; 32; 55; 32; 125; 10].
+
+Example X_wrap_fires :
+  (* the parsed tree is not the normal form (it has the wrapping block) although it normalizes to it *)
+  g_normalize X_parsed100 = g_normalize X_ex_seq /\ X_parsed100 <> g_normalize X_ex_seq /\
+  g_normalize X_parsed20 = g_normalize X_ex_seq /\ X_parsed20 <> g_normalize X_ex_seq /\
+  X_wrapped_probe X_parsed100 = true /\ X_wrapped_probe (g_normalize X_ex_seq) = false /\
+  (* the wrapped body and the grouped consequence are in both texts *)
+  X_has_sub X_wrapped_text X_out100 = true /\ X_has_sub X_wrapped_text X_out20 = true /\
+  X_has_sub X_grouped_text X_out100 = true /\ X_has_sub X_grouped_text X_out20 = true /\
+  (* blank lines: exactly two in each text (before and after the tall step) *)
+  X_has_blank X_out100 = true /\ X_has_blank X_out20 = true /\
+  X_count_blank X_out100 = 2%nat /\ X_count_blank X_out20 = 2%nat /\
+  (* the redundant block left no trace: three braces-open only (step 2 block, group, wrap) plus the escaped one
+     in the string and the one in the tuple *)
+  count_occ Z.eq_dec X_out100 123 = 5%nat.
+Proof.
+  split; [vm_compute; reflexivity|]. split.
+  { intro H. apply (f_equal X_wrapped_probe) in H. vm_compute in H. discriminate H. }
+  split; [vm_compute; reflexivity|]. split.
+  { intro H. apply (f_equal X_wrapped_probe) in H. vm_compute in H. discriminate H. }
+  vm_compute. repeat split; reflexivity.
+Qed.
+
+(* g_is_tall_step on the steps of the normal form, with the docs the printer builds *)
+Example X_tall_fires :
+  map (fun c => g_is_tall_step c (g_chain_doc c)) (g_normalize X_ex_seq) = [false; false; true; false].
+Proof. vm_compute. reflexivity. Qed.
+(* step 1 breaks at width 20 only because it does not fit: not tall, no blank line after ''~> index'' *)
+Example X_tall_not_by_width :
+  g_is_tall_step (hd [] (g_normalize X_ex_seq)) (g_chain_doc (hd [] (g_normalize X_ex_seq))) = false /\
+  X_has_sub [126; 62; 32; 105; 110; 100; 101; 120; 10; 123; 10] X_out20 = true.
+Proof. vm_compute. split; reflexivity. Qed.
+(* g_wrap_breaking_body: wraps in a multi-branch block, leaves the body alone in a single-branch one *)
+Example X_wrap_body :
+  let c := [GIdent X_la; GIdent X_lb] in
+  let body := g_sequence_doc_of (g_seq_items [c]) 2 in
+  forces_break body = true /\
+  g_wrap_breaking_body [c] body true = DConcat [DText [123]; DNest 2 (DConcat [DHardLine; body]); DHardLine; DText [125]] /\
+  g_wrap_breaking_body [c] body false = body.
+Proof. vm_compute. repeat split; reflexivity. Qed.
+
+(* ------------------------------------------------------------------------------------------ *)
+(* adversarial inputs: a decision procedure for one instance of the round trip, and a batch     *)
+Definition X_leqb (a b : list Z) : bool := if list_eq_dec Z.eq_dec a b then true else false.
+Definition X_oeqb (a b : option (list Z)) : bool :=
+  match a, b with Some x, Some y => X_leqb x y | None, None => true | _, _ => false end.
+Fixpoint X_teqb (a b : gterm) {struct a} : bool :=
+  let chain := fix chain (x y : list gterm) {struct x} : bool :=
+    match x, y with [], [] => true | p :: x', q :: y' => X_teqb p q && chain x' y' | _, _ => false end in
+  let seq := fix seq (x y : list (list gterm)) {struct x} : bool :=
+    match x, y with [], [] => true | p :: x', q :: y' => chain p q && seq x' y' | _, _ => false end in
+  match a, b with
+  | GInt x, GInt y => x =? y
+  | GIdent x, GIdent y => X_leqb x y
+  | GStr x, GStr y => X_leqb x y
+  | GTuple n f, GTuple m g =>
+      X_oeqb n m &&
+      (fix fields (x y : list gfield) {struct x} : bool :=
+         match x, y with
+         | [], [] => true
+         | GField l v :: x', GField l' v' :: y' => X_oeqb l l' && chain v v' && fields x' y'
+         | _, _ => false end) f g
+  | GBlock bs, GBlock cs =>
+      (fix brs (x y : list gbranch) {struct x} : bool :=
+         match x, y with
+         | [], [] => true
+         | GBranch c k :: x', GBranch c' k' :: y' =>
+             seq c c' && match k, k' with Some s, Some s' => seq s s' | None, None => true | _, _ => false end && brs x' y'
+         | _, _ => false end) bs cs
+  | _, _ => false
+  end.
+Fixpoint X_ceqb (x y : gchain) : bool :=
+  match x, y with [], [] => true | p :: x', q :: y' => X_teqb p q && X_ceqb x' y' | _, _ => false end.
+Fixpoint X_seqb (x y : gseq) : bool :=
+  match x, y with [], [] => true | p :: x', q :: y' => X_ceqb p q && X_seqb x' y' | _, _ => false end.
+
+(* 0: wf, formats, parses, same normal form, and the parsed tree formats to the same text;
+   1: does not parse; 2: normal forms differ; 3: printer fails; 5/6: not a fixpoint; 9: not wf *)
+Definition X_check (s : gseq) (w : nat) : nat :=
+  if g_wf_seq s then
+    match format_frag2 s w with
+    | Some out =>
+        match parse_frag2 out with
+        | Some c' => if X_seqb (g_normalize c') (g_normalize s)
+                     then match format_frag2 c' w with Some o2 => if X_leqb o2 out then 0 else 5 | None => 6 end
+                     else 2
+        | None => 1
+        end
+    | None => 3
+    end
+  else 9.
+Definition X_ws : list nat := [0; 7; 20; 41; 51; 80; 100; 300]%nat.
+
+(* the checker is not constantly 0: it sees a difference of normal forms and a non-wf input *)
+Example X_check_control :
+  X_seqb (g_normalize X_parsed100) (g_normalize X_ex_seq) = true /\
+  X_seqb X_parsed100 (g_normalize X_ex_seq) = false /\
+  X_seqb X_parsed100 X_ex_seq = false /\
+  X_check [[]] 100 = 9%nat /\ X_check [[GIdent [65]]] 100 = 9%nat.
+Proof. vm_compute. repeat split; reflexivity. Qed.
+
+Definition X_a30 := GIdent X_la.
+Definition X_b30 := GIdent X_lb.
+Definition X_i (c : Z) := GIdent [c].
+Definition X_blk1 (c : gchain) := GBlock [GBranch [c] None].
+Definition X_adv_tests : list gseq := [
+  X_ex_seq; X_parsed100;
+  (* blocks first / last / in the middle of chains *)
+  [[GBlock [GBranch [[X_i 97]] None; GBranch [[X_i 98]] None]; X_i 120]];
+  [[X_i 120; GBlock [GBranch [[X_i 97]] None; GBranch [[X_i 98]] None]]];
+  [[X_i 120; GBlock [GBranch [[X_i 97]] None; GBranch [[X_i 98]] None]; X_i 121]];
+  (* nested blocks in guards *)
+  [[GBlock [GBranch [[GBlock [GBranch [[X_i 97]] (Some [[X_i 98]])]]] (Some [[X_i 99]])]]];
+  [[GBlock [GBranch [[GBlock [GBranch [[X_i 97]] (Some [[X_i 98]]); GBranch [[X_a30; X_b30]] None]]]
+                    (Some [[X_i 99]; [X_i 100]])]]];
+  (* strings: => | } LF quote inside; empty strings; blanks *)
+  [[GStr [61; 62; 32; 124; 32; 125; 10; 34]; GStr []; GStr [32; 32]]; [GStr []]];
+  [[GBlock [GBranch [[GStr [10; 10]]] (Some [[GStr [125]]]); GBranch [[GStr []; GStr []]] None]]];
+  (* tuples containing blocks *)
+  [[GTuple (Some [80]) [GField (Some [120]) [X_blk1 [X_i 97; X_i 98]];
+                        GField None [GBlock [GBranch [[X_i 97]] None; GBranch [[X_a30; X_b30]] None]]]]];
+  [[GTuple None [GField None [X_i 102; GBlock [GBranch [[X_i 97]] (Some [[X_i 98]; [X_i 99]])]]]; GTuple (Some [81]) []]];
+  (* multi-step conditions, breaking conditions *)
+  [[GBlock [GBranch [[X_i 97]; [X_i 98]] (Some [[X_i 99]])]]];
+  [[GBlock [GBranch [[X_i 97]; [X_a30; X_b30]] (Some [[X_i 99]]);
+            GBranch [[X_a30; X_b30]; [X_i 97]] (Some [[X_a30; X_b30]])]]];
+  [[GBlock [GBranch [[X_a30; X_b30]] (Some [[X_a30; X_b30]])]]];
+  [[GBlock [GBranch [[X_a30; X_b30]] (Some [[X_a30; X_b30]; [X_i 99]])]]];
+  (* nests of redundant blocks *)
+  [[X_blk1 [X_blk1 [X_blk1 [X_i 97]]]]];
+  [[X_blk1 [X_blk1 [X_i 97; X_blk1 [X_i 98; X_i 99]]; X_i 100]; X_blk1 [X_a30]; X_blk1 [X_b30]]];
+  [[GBlock [GBranch [[X_blk1 [X_i 97]]; [X_blk1 [X_i 98]]] None]]];
+  [[GBlock [GBranch [[X_i 97]; [X_i 98]] None]]];
+  [[GBlock [GBranch [[X_i 97]] (Some [[X_blk1 [X_i 98]]])]]];
+  [[GBlock [GBranch [[X_i 97]] (Some [[GBlock [GBranch [[X_i 98]; [X_i 99]] None]]])]]];
+  (* tall steps inside branches and at the top *)
+  [[GBlock [GBranch [[X_a30; X_b30]; [X_i 99]; [X_a30; X_b30]] None; GBranch [[X_i 100]] None]]];
+  [[GBlock [GBranch [[X_i 99]; [X_a30; X_b30]] None]]; [X_i 101]];
+  [[X_a30; X_b30]];
+  [[X_a30; X_b30]; [X_a30; X_b30]];
+  [[X_a30; GInt (-5); X_b30; GTuple (Some [80]) []]];
+  (* a wide block in the head of a chain whose last term is not a container *)
+  [[GBlock [GBranch [[X_a30]] None; GBranch [[X_b30]] None]; X_i 120]];
+  [[GBlock [GBranch [[GBlock [GBranch [[X_a30]] None; GBranch [[X_b30]] None]; X_i 120]] None; GBranch [[X_i 98]] None]]];
+  [[X_i 120; GBlock [GBranch [[X_a30; X_b30]] None; GBranch [[X_b30]] None]; X_i 121; X_i 122]];
+  (* integers, empty tuples next to containers *)
+  [[X_i 120; GInt (-1); GInt 0; GBlock [GBranch [[GInt (-3)]] (Some [[GInt 4]])]]];
+  [[GTuple (Some [80]) []; GTuple None [GField None [GInt 1]]];
+   [GTuple (Some [80]) []; GBlock [GBranch [[X_i 97]] (Some [[X_i 98]])]]];
+  [[GIdent [121; 63]; GBlock [GBranch [[X_i 97]] (Some [[X_i 98]])]; GIdent [121; 63]]];
+  [[GBlock [GBranch [[GTuple None []]] (Some [[GTuple None []]]); GBranch [[GTuple None []]] None]]]
+].
+Example X_adv_all_ok :
+  forallb (fun s => forallb (fun w => (X_check s w =? 0)%nat) X_ws) X_adv_tests = true.
+Proof. vm_compute. reflexivity. Qed.
+
+(* the theorem instantiated on the example (not by computation): every width *)
+Example X_ex_roundtrip_all_widths : forall w, exists out c',
+  format_frag2 X_ex_seq w = Some out /\ parse_frag2 out = Some c' /\ g_normalize c' = g_normalize X_ex_seq.
+Proof. intros w. apply frag2_roundtrip. exact X_ex_wf. Qed.
+
+Print Assumptions frag2_roundtrip.
+Print Assumptions frag2_format_fixpoint.
+Print Assumptions frag2_source_fixpoint.
+Print Assumptions g_normalize_idempotent.
+Print Assumptions parse_frag2_wf.
